@@ -65,6 +65,7 @@ type scenario struct {
 	Fault     string       `json:"fault"` // none | tcp | udp | both
 	Block     bool         `json:"block"`
 	StopDelay int          `json:"stop_delay_us"`
+	QuickStop bool         `json:"quick_stop"` // Stop right after the fault (races with the reopen), no post-fault phase
 }
 
 type ev map[string]interface{}
@@ -373,7 +374,9 @@ func runScenario(sc scenario, stopTimeout time.Duration) []ev {
 			inject("udp")
 		}
 		close(gates["post"])
-		barrier("post")
+		if !sc.QuickStop {
+			barrier("post")
+		}
 	} else {
 		close(gates["post"])
 	}
